@@ -406,6 +406,10 @@ func (i *introspectionVisitor) TypeRef(typeRef int) TypeRef {
 func (i *introspectionVisitor) deprecationReason(directiveRef int) (reason *string) {
 	argValue, exists := i.definition.DirectiveArgumentValueByName(directiveRef, []byte(DeprecationReasonArgName))
 	if exists {
+		if argValue.Kind != ast.ValueKindString {
+			// `reason` is a nullable String: an explicit null means "deprecated, without a reason"
+			return nil
+		}
 		reasonContent := i.definition.ValueContentString(argValue)
 		return &reasonContent
 	}
